@@ -10,6 +10,9 @@ import Ark.Model.Proto
     fp6a : <nr3> <frob3C1> <frob3C2> <nr6> <frob6>                  (Fp6 = 2 over 3)
     fp6b : <hooks2> <nr2> <frob2> <hooks6> <nr6> <frob6C1> <frob6C2>   (Fp6 = 3 over 2)
     fp12 : (fp6b fields) <nr12> <frob12>
+  A kind with suffix `~` (e.g. `fp3~`) marks a deliberately defective configuration of the harness
+  (non-residue that is a cube, truncated Frobenius table, characteristic 3): the verdict is then
+  restricted to the ring identities and every other op is compared with the model only (panic sites).
   `hooks2` ∈ {def, neg} (trait defaults / the `bls12_381::Fq2Config` overrides),
   `hooks6` ∈ {def, bls} (trait default / the `bls12_381::Fq6Config` override `(c0-c1, c0+c1)`).
   Elements and tables are comma-separated base-prime-field coordinates (standard integer values),
@@ -90,6 +93,9 @@ structure Inst where
   shape : Shape
   /-- the kind has the conjugation-based `CyclotomicMultSubgroup` impl -/
   cycFast : Bool
+  /-- the configuration is deliberately not a field / has defective tables (kind suffix `~`): verdicts are
+      restricted to the ring identities, every other op is checked for model conformance only -/
+  ringOnly : Bool := false
   imgs : Thunk (List (List Nat))
   model : String → List String → Option String
 
@@ -141,7 +147,12 @@ def isInverse (I : Inst) (a : List Nat) (impl : String) : String :=
       else "bad:a*x!=1"
     | none => "bad:" ++ impl
 
+def ringOps : List String :=
+  ["add", "sub", "neg", "double", "mul", "square", "mulprime", "mulbase", "mulfp", "mulfp2", "mulafp2",
+   "m034", "m014", "m01", "m1", "fromelems"]
+
 def verdict (I : Inst) (op : String) (args : List String) (impl : String) : Option String := do
+  if I.ringOnly && !ringOps.contains op then return "ok"
   let p := I.p
   let sh := I.shape
   let n := sh.deg
@@ -227,12 +238,6 @@ def showOO {E : Type} (D : FieldD (Fp p) E) : Outcome (Option E) → String
 def parseE {E : Type} (D : FieldD (Fp p) E) (s : String) : Option E := do
   let l ← parseList? s
   D.fromPrimes (fps l)
-def parseEs {E : Type} (D : FieldD (Fp p) E) (s : String) : Option (List E) := do
-  let l ← parseList? s
-  let d := D.extDeg
-  if d = 0 ∨ l.length % d != 0 then none
-  else mapM? (fun c => D.fromPrimes (fps c)) ((chunk d (l.length / d) l))
-
 /-- operations every tower has (trait `Field`, `CyclotomicMultSubgroup`) -/
 def genModel {E : Type} [Add E] [Sub E] [Mul E] [Neg E] [Zero E] [One E] [DecidableEq E]
     (D : FieldD (Fp p) E) (C : CycD E) (extra : String → List String → Option String)
@@ -476,7 +481,9 @@ def run (cache : Cache) (op : String) (args : List String) (impl : String) :
   match op, args with
   | "cfg", id :: kind :: p :: rest =>
     let p ← parseHex? p
-    let I ← buildInst kind p rest
+    let ring := kind.endsWith "~"
+    let I ← buildInst (if ring then (kind.dropEnd 1).toString else kind) p rest
+    let I := { I with ringOnly := ring }
     let d := hex I.shape.deg
     some ({ insts := (id, I) :: cache.insts.filter (fun e => e.1 != id) }, d, vs impl d)
   | _, id :: rest =>
